@@ -763,3 +763,32 @@ Proof.
   - eexists. split; [reflexivity|]. right. exists m'. split; [reflexivity | exact (proj1 (Hc m' eq_refl))].
   - congruence.
 Qed.
+
+(* ---------- one loader, many requests: the cache does not show ---------- *)
+
+Definition consistent (cache d : db) : Prop := forall n r, lookup cache n = Some r -> lookup d n = Some r.
+
+Lemma lookup_app a b n : lookup (a ++ b) n = match lookup a n with Some r => Some r | None => lookup b n end.
+Proof.
+  induction a as [|[m r] a IH]; cbn; [reflexivity|]. destruct (str_eqb n m); [reflexivity | exact IH].
+Qed.
+
+Lemma consistent_lookup cache d : consistent cache d -> forall n, lookup (cache ++ d) n = lookup d n.
+Proof.
+  intros H n. rewrite lookup_app. destruct (lookup cache n) as [r|] eqn:E; [symmetry; now apply H | reflexivity].
+Qed.
+
+Lemma run_ops_pure fuel d upd : (forall c n, consistent c d -> consistent (upd c n) d) ->
+  forall ops cache, consistent cache d -> run_ops fuel d upd cache ops = map (resolve true fuel d) ops.
+Proof.
+  intros Hupd. induction ops as [|n ops IH]; intros cache Hc; cbn [run_ops map]; [reflexivity|].
+  rewrite (IH _ (Hupd _ n Hc)). f_equal. unfold resolve. apply loadv_ext. now apply consistent_lookup.
+Qed.
+
+Lemma cache_requested_consistent d c n : consistent c d -> consistent (cache_requested d c n) d.
+Proof.
+  intros Hc. unfold cache_requested. rewrite (consistent_lookup _ _ Hc).
+  destruct (lookup d n) as [r|] eqn:E; [|exact Hc].
+  intros m r'. cbn [lookup]. destruct (str_eqb m n) eqn:Em; [|apply Hc].
+  apply str_eqb_eq in Em. subst. intros H; inversion H; subst. exact E.
+Qed.
